@@ -61,7 +61,7 @@ def _overridden_below(prog: Program, owner: Cls, name: str) -> bool:
     return False
 
 
-def _helper_for(prog: Program, cls: Optional[Cls], caller: Func, call: ast.Call) -> Optional[Func]:
+def _helper_for(prog: Program, cls: Optional[Cls], caller: Func, call: ast.Call, allow_gen: bool = False) -> Optional[Func]:
     f = call.func
     if isinstance(f, ast.Name) and _is_private(f.id):
         # a private function of the caller's module (not shadowed by a local / parameter of the caller)
@@ -85,17 +85,23 @@ def _helper_for(prog: Program, cls: Optional[Cls], caller: Func, call: ast.Call)
     if not (via_self or via_cls):
         return None
     h = prog.resolve(cls, f.attr)
-    if h is None or h.cls is None or h.cls.is_external or h.is_abstract or h.is_generator or h.is_property or h.is_classmethod:
+    if h is None or h.cls is None or h.cls.is_external or h.is_abstract or (h.is_generator and not allow_gen) or h.is_property:
         return None
     if h is caller or h.nested:
         return None
-    if via_cls and not h.is_static:
+    if h.is_classmethod:
+        # only cls._h(...) from a class method: there the receiver *is* the class object the helper runs on; through an instance
+        # or the class name the helper's cls would be type(self) / a fixed class, which a textual substitution cannot express
+        if not (via_self and caller.is_classmethod):
+            return None
+    elif via_cls and not h.is_static:
         return None
     if _overridden_below(prog, h.cls, h.name):
         return None
     if any(isinstance(a, ast.Starred) for a in call.args) or any(k.arg is None for k in call.keywords):
         return None
-    if any(isinstance(n, (ast.Global, ast.Nonlocal, ast.Yield, ast.YieldFrom, ast.Await)) for n in ast.walk(h.node)):
+    banned = (ast.Global, ast.Nonlocal, ast.Await) if allow_gen else (ast.Global, ast.Nonlocal, ast.Yield, ast.YieldFrom, ast.Await)
+    if any(isinstance(n, banned) for n in ast.walk(h.node)):
         return None
     return h
 
@@ -233,6 +239,24 @@ class _Inliner:
             if isinstance(st, ast.Try):
                 for hd in st.handlers:
                     hd.body = self.block(hd.body, owner, stack, depth)
+            # `yield from self._gen(...)` as a statement: the generator helper's body runs in place (its return value unused)
+            if isinstance(st, ast.Expr) and isinstance(st.value, ast.YieldFrom) and isinstance(st.value.value, ast.Call):
+                hg = _helper_for(self.P, self.cls, owner, st.value.value, allow_gen=True)
+                if hg is not None and hg.is_generator and hg.qual not in stack and depth <= MAX_DEPTH \
+                        and not any(isinstance(r_, ast.Return) and r_.value is not None for r_ in ast.walk(hg.node)):
+                    b_ = _bind(hg, st.value.value, self._tag(hg))
+                    if b_ is not None:
+                        prefix_, mapping_, rename_ = b_
+                        sub_ = _Subst(mapping_, rename_)
+                        body_ = [sub_.visit(_dc(x)) for x in _body_wo_doc(hg.node)]
+                        # a bare `return` inside a generator ends it: only allowed as the last statement
+                        if not any(isinstance(r_, ast.Return) for x in body_[:-1] for r_ in ast.walk(x)):
+                            if body_ and isinstance(body_[-1], ast.Return):
+                                body_ = body_[:-1]
+                            body_ = self.block(body_, hg, stack | {hg.qual}, depth + 1)
+                            self.inlined.append(hg.name)
+                            out.extend(prefix_ + body_)
+                            continue
             call = None
             kind = None
             if isinstance(st, ast.Expr) and isinstance(st.value, ast.Call):
@@ -257,6 +281,20 @@ class _Inliner:
                             continue
             # helpers that are a single `return <expr>` are inlined as expressions wherever they are called
             st = _ExprInline(self, owner, stack, depth).visit(st)
+            # <helper>(...).<method>(...) as a statement / assigned / returned: the helper runs first, its result takes its place
+            outer = st.value if isinstance(st, (ast.Expr, ast.Assign, ast.Return, ast.AugAssign, ast.AnnAssign)) else None
+            if isinstance(outer, ast.Call) and isinstance(outer.func, ast.Attribute) and isinstance(outer.func.value, ast.Call):
+                inner = outer.func.value
+                h = _helper_for(self.P, self.cls, owner, inner)
+                if h is not None:
+                    r = self.body_of(h, inner, stack, depth)
+                    if r is not None and r[2] is not None:
+                        prefix, body, ret_expr = r
+                        tmp = f"{h.name.strip('_')}_result{self.n}"
+                        bind = ast.copy_location(ast.Assign(targets=[ast.Name(id=tmp, ctx=ast.Store())], value=ret_expr), st)
+                        outer.func.value = ast.copy_location(ast.Name(id=tmp, ctx=ast.Load()), inner)
+                        out.extend(prefix + body + [bind, st])
+                        continue
             out.append(st)
         return out
 
